@@ -111,18 +111,19 @@ struct Trace
    void flush() { if(f) fflush(f); }
    void close() { if(f) { fclose(f); f = nullptr; } }
 };
-inline Trace& T() { static Trace t; return t; }
+inline Trace& T() { static thread_local Trace t; return t; }   // one trace per thread (C18)
 
 // a crash must never silently truncate a trace: log it and leave
-inline std::string& pending() { static std::string p; return p; }
+inline std::string& pending() { static thread_local std::string p; return p; }
 inline void crashLine(const char* what)
 {
    Trace& t = T();
    if(t.f) { fprintf(t.f, "{\"a\":\"Crash\",\"what\":\"%s\",\"during\":\"%s\"}\n", what, pending().c_str()); fflush(t.f); }
 }
+inline int& crashExitCode() { static int c = 0; return c; }   // thread mode: the parent must learn that the execution died
 inline void onSignal(int sig)
 {
-   char b[64]; snprintf(b, sizeof b, "signal %d", sig); crashLine(b); _exit(0);
+   char b[64]; snprintf(b, sizeof b, "signal %d", sig); crashLine(b); _exit(crashExitCode());
 }
 inline void onTerminate()
 {
@@ -131,7 +132,7 @@ inline void onTerminate()
    try { auto e = std::current_exception(); if(e) std::rethrow_exception(e); }
    catch(const std::exception& e) { msg = std::string("exception: ") + e.what(); for(char& c : msg) if(c == '"' || c == '\\' || c < 0x20) c = ' '; w = msg.c_str(); }
    catch(...) { w = "unknown exception (not derived from std::exception, e.g. soplex::SPxException)"; }
-   crashLine(w); _exit(0);
+   crashLine(w); _exit(crashExitCode());
 }
 inline void installCrashHandlers()
 {
